@@ -95,5 +95,6 @@ static std::string goR(const Case& c) {
 
 int main() {
     dom_table()["RU"] = &goR;
+    g_fork = true;
     return main_loop();
 }
